@@ -66,3 +66,88 @@ pub proof fn lemma_target_in_range(a: A, u: int, j: int)
     ensures a.edges[u][j].1 < a.edges.len(),
 {
 }
+
+// -------- which vertices are expanded: exactly those reachable from the start vertex --------
+
+/// every edge target of every vertex of x is in s
+pub open spec fn closed_in(a: A, x: Set<usize>, s: Set<usize>) -> bool {
+    forall|u: usize, j: int| x.contains(u) && u < a.edges.len() && 0 <= j < a.edges[u as int].len()
+        ==> s.contains((#[trigger] a.edges[u as int][j]).1)
+}
+
+/// every id of s was in s0 already or is reachable from v
+pub open spec fn from_v(a: A, v: usize, s0: Set<usize>, s: Set<usize>) -> bool {
+    forall|u: usize| #[trigger] s.contains(u) ==> s0.contains(u) || reachable(a, pf_all(), v, u)
+}
+
+/// the j-th stored edge of u is an (accepted) edge
+pub proof fn lemma_edge_acc(a: A, u: usize, j: int)
+    requires u < a.edges.len(), 0 <= j < a.edges[u as int].len(),
+    ensures acc(a, pf_all(), u, a.edges[u as int][j].1),
+{
+    let w = a.edges[u as int][j].1;
+    assert((a.edges[u as int][j]).1 == w && pf_all()(u, w, a.edges[u as int][j].0));
+}
+
+/// what the nested call (started at the target t of an edge of v) reached is reachable from v
+pub proof fn lemma_from_v_nested(a: A, v: usize, t: usize, s0: Set<usize>, sn0: Set<usize>, sn1: Set<usize>, sn2: Set<usize>)
+    requires
+        from_v(a, v, s0, sn0), sn1.subset_of(sn0.insert(t)), from_v(a, t, sn1, sn2), acc(a, pf_all(), v, t),
+    ensures from_v(a, v, s0, sn2),
+{
+    lemma_reach_self(a, pf_all(), v);
+    lemma_reach_step(a, pf_all(), v, v, t);
+    assert forall|u: usize| #[trigger] sn2.contains(u) implies s0.contains(u) || reachable(a, pf_all(), v, u) by {
+        if sn1.contains(u) {
+            assert(sn0.insert(t).contains(u));
+            if u != t { assert(sn0.contains(u)); }
+        } else {
+            lemma_reach_prepend(a, pf_all(), v, t, u);
+        }
+    }
+}
+
+/// the number of edges of the vertices reachable from v with an id below n
+pub open spec fn esum_reach(a: A, v: usize, n: int) -> int
+    decreases n
+{
+    if n <= 0 { 0 } else {
+        esum_reach(a, v, n - 1) + (if reachable(a, pf_all(), v, (n - 1) as usize) { a.edges[n - 1].len() as int } else { 0int })
+    }
+}
+
+proof fn lemma_esum_is_reach(a: A, v: usize, f: Set<usize>, n: int)
+    requires n <= usize::MAX, forall|u: usize| u < n ==> (f.contains(u) <==> reachable(a, pf_all(), v, u)),
+    ensures esum(a, f, n) == esum_reach(a, v, n),
+    decreases n,
+{
+    if n > 0 { lemma_esum_is_reach(a, v, f, n - 1); }
+}
+
+/// C20: a set that holds v, is closed under edges and holds only what is reachable from v IS the set of vertices
+/// reachable from v - so the lines of inspect(v) are one per edge of every vertex reachable from v
+//# L20-expanded-set-is-exactly-the-reachable-set: C20
+pub proof fn lemma_reach_exact(a: A, v: usize, f: Set<usize>, n: int)
+    requires
+        n == a.edges.len(), n <= usize::MAX, f.contains(v), closed_in(a, f, f), from_v(a, v, Set::<usize>::empty(), f),
+        seen_ok(f, n),
+    ensures
+        forall|u: usize| f.contains(u) <==> reachable(a, pf_all(), v, u),
+        esum(a, f, n) == esum_reach(a, v, n),
+{
+    assert forall|x: usize, y: usize| f.contains(x) && #[trigger] acc(a, pf_all(), x, y) implies f.contains(y) by {
+        let j = choose|j: int| 0 <= j < a.edges[x as int].len() && (#[trigger] a.edges[x as int][j]).1 == y && pf_all()(x, y, a.edges[x as int][j].0);
+        assert(f.contains((a.edges[x as int][j]).1));
+    }
+    assert forall|u: usize| f.contains(u) <==> reachable(a, pf_all(), v, u) by {
+        if reachable(a, pf_all(), v, u) { lemma_closed_contains_reach(a, pf_all(), v, f, u); }
+    }
+    lemma_esum_is_reach(a, v, f, n);
+}
+//#end
+
+/// what inspect(v) returns: a header with the id, then one line per edge of every vertex reachable from v
+pub closed spec fn inspect_post(a: A, v: usize, text: Seq<char>, lit: Seq<char>, nl: Seq<char>) -> bool {
+    exists|lines: Seq<Seq<char>>| text == fmt_text(lit, seq![dec_text(v), #[trigger] joined(lines, nl)])
+        && lines.len() == esum_reach(a, v, a.edges.len() as int)
+}
